@@ -1,7 +1,7 @@
-CONSTANT MaxLen = 2
-CONSTANT PoolSel = "full"
-CONSTANT SpecLo = 1
-CONSTANT SpecHi = 30
+\* M: the design invariants of the scanner (the executor rewrites the constants per tier)
+CONSTANT MaxLen = 3
+CONSTANT PoolSel = "small"
+CONSTANT SpecNums = {1, 15, 26}
 INIT Init
 NEXT Next
 INVARIANT SpecsOK
@@ -14,4 +14,3 @@ INVARIANT Accounting
 INVARIANT GNUPermutation
 INVARIANT BSDSuffix
 INVARIANT CompleteIsParse
-INVARIANT Emit
